@@ -143,6 +143,7 @@ class Evaluator:
         self.loop_mode = "havoc"
         self.transparent_extra: set = set()  # extra value-preserving callables for one evaluation (e.g. deepcopy)
         self.loops: list = []
+        self.returns: list = []  # (value, path condition, heap snapshot) of every return of the top-level function
         self.unrolled: list = []  # (node, func, iterations) of field loops that were unrolled
         self.divisions: list = []  # (denominator term, node, func)
         self.products: list = []  # (left, right, node, func) of every numeric product as written
@@ -159,6 +160,28 @@ class Evaluator:
         self._seq = itertools.count(1)
         self.notes: list = []
         self.inlined: set = set()
+
+    def exit_value(self, obj, attr, default=None):
+        """Attribute of *obj* when the folded function returns, merged over all of its returns (phi on the path
+        conditions of the earlier ones); *default* stands for 'never stored on that path'."""
+        rets = self.returns
+        if not rets:
+            return self.heap.get((obj, attr), default)
+        out = rets[-1][2].get((obj, attr), default)
+        last_conds = rets[-1][1]
+        for value, conds, heap in reversed(rets[:-1]):
+            v = heap.get((obj, attr), default)
+            if v == out:
+                continue
+            # the conditions that distinguish this return from the later ones
+            own = [cp for cp in conds if cp not in last_conds]
+            if not own:
+                continue
+            c = own[0][0] if own[0][1] else ("not", own[0][0])
+            for t, pol in own[1:]:
+                c = ("and", (c, t if pol else ("not", t)))
+            out = T.phi(c, v if v is not None else T.atom("<unset>"), out if out is not None else T.atom("<unset>"))
+        return out
 
     # ------------------------------------------------------------- public
     def run(self, f: FuncInfo, concrete: ClassInfo | None = None, args: dict | None = None,
@@ -265,6 +288,9 @@ class Frame:
             self.exec_stmt(s, st)
 
     def _do_return(self, st: State, value):
+        if self.depth == 0 and value != T.RAISE:
+            # heap as it stands at this exit of the function being folded (an early return does not see later stores)
+            self.ev.returns.append((value, st.conds, dict(self.ev.heap)))
         if st.ret is None:
             st.ret = value
         else:
@@ -319,6 +345,20 @@ class Frame:
             for tgt in s.targets:
                 if isinstance(tgt, ast.Name):
                     st.env.pop(tgt.id, None)
+                elif isinstance(tgt, ast.Subscript):
+                    # del d[k]: a literal dict loses the entry; anything else becomes a new (opaque) value of the container
+                    base = self.eval(tgt.value, st)
+                    idx = self.eval(tgt.slice, st)
+                    if isinstance(base, tuple) and base[0] == "d" and idx[0] == "k" and all(k[0] == "k" for k, _ in base[1]):
+                        newv = ("d", tuple((k, x) for k, x in base[1] if k != idx))
+                    else:
+                        newv = ("f", "delitem", (base, idx), ())
+                    self._record("delitem", [base, idx], {}, s, newv, None)
+                    if isinstance(tgt.value, ast.Name):
+                        st.env[tgt.value.id] = newv
+                    elif isinstance(tgt.value, ast.Attribute):
+                        b2 = self.eval(tgt.value.value, st)
+                        ev.store_attr(b2, tgt.value.attr, newv, s, self.f)
         elif isinstance(s, ast.ClassDef):
             st.env[s.name] = ev.opaque("localclass")
         else:
